@@ -49,6 +49,7 @@ def check(ck: Check) -> None:
         modules += [m for m in mods if m not in modules]
         theorems += ths
     # lean/Gen/*.lean (imported by Props.C16) must reflect the CURRENT tree before anything is built: re-run the translator
+    ck.gen_begin()   # released at the end of ck.lean
     try:
         from . import c16
         c16.meta(ck)
